@@ -494,7 +494,6 @@ pub fn verdict_c08(h: &EncHistory, sc: &mut EScratch, st: &mut Stats, enumerated
 pub fn verdict_c09(h: &EncHistory, sc: &mut EScratch, st: &mut Stats, enumerated: bool) -> Verdict {
     let mut hr = h.clone();
     hr.repl = true;
-    hr.sink = ESink::Slice;
     for c in hr.caps.iter_mut() {
         if *c != CAP_QUERY && *c < 14 {
             *c += 10;
